@@ -51,6 +51,17 @@ let () =
             r := r'
           done;
           print_string "E\n"
+      | "S" :: rest ->
+          (* S <n0> <nv> : file holding samples 1000..1000+n0-1, writer appends nv further samples (values 1000+i);
+             prints every state a reader can decode: "S j v v v ..." *)
+          let w = Array.of_list (List.map int_of_string rest) in
+          let n0 = w.(0) and nv = w.(1) in
+          let ws = List.init n0 (fun i -> n_of_int (1000 + i)) and vs = List.init nv (fun i -> n_of_int (1000 + n0 + i)) in
+          for j = 0 to 2 * nv do
+            let o = sie_observed ws vs (nat_of_int j) in
+            Printf.printf "S %d %s\n" j (String.concat " " (List.map (fun x -> string_of_int (int_of_n x)) o))
+          done;
+          print_string "E\n"
       | _ -> ()
     done
   with End_of_file -> ()
